@@ -67,10 +67,26 @@ func main() {
 
 	defer func() {
 		if x := recover(); x != nil {
+			if r.FailCount() > 0 {
+				// verdicts were reached before something gave way (usually because the tree under test
+				// is broken in a way the harness did not expect): they stand, and are reported
+				fmt.Fprintf(os.Stderr, "harness: stopped early after recording %d failing cases: %v\n", r.FailCount(), firstLineOf(fmt.Sprint(x)))
+				r.NotExhaustive("the run stopped early: " + firstLineOf(fmt.Sprint(x)))
+				os.Exit(r.Finish())
+			}
 			fmt.Fprintf(os.Stderr, "harness error (no verdict): %v\n", x)
 			panic(x)
 		}
 	}()
 	p.Run(e)
 	os.Exit(r.Finish())
+}
+
+func firstLineOf(s string) string {
+	for i, c := range s {
+		if c == '\n' {
+			return s[:i]
+		}
+	}
+	return s
 }
